@@ -104,10 +104,8 @@ def run(chk):
             rid += 1
             rows.append(observe_expr(rid, v) if form == "text" else observe_expr(rid, terms=v))
             meta[rid] = {"form": form, "input": v, "tree_min": "".join(case["min"])}
-    # spec prediction vs observation (informational full conformance): the truth table TLC predicted for the tree
-    for case, k in zip(cases, range(0, len(rows), 8)):
-        for row in rows[k:k + 7]:
-            if row["form"] == "text" and not row["err"] and row["tt"] != case["tt"]:
+            # spec prediction vs observation (informational full conformance): the truth table TLC predicted for the tree
+            if (form == "text" or len(v) == 1) and rows[-1]["tt"] != case["tt"]:
                 chk.divergences += 1
     # empty / blank expressions
     for txt in ("", " ", "   "):
